@@ -248,8 +248,15 @@ async def execute(ast: list[Any], ext: int) -> list[dict[str, Any]]:
 
     task = loop.create_task(main())
     handle = None
+    ext_info = {"ev": "_ext", "first": True}
     if ext < INF:
-        handle = loop.call_at(t0 + ext * TICK, task.cancel)
+
+        def external_cancel() -> None:
+            # was a cancellation already requested on the task in this very iteration (a scope's deadline that fired just before)?
+            ext_info["first"] = task.cancelling() == 0
+            task.cancel()
+
+        handle = loop.call_at(t0 + ext * TICK, external_cancel)
     try:
         await asyncio.wait([task])
     finally:
@@ -261,6 +268,7 @@ async def execute(ast: list[Any], ext: int) -> list[dict[str, Any]]:
         events.append({"ev": "end", "id": 0, "caught": False, "cc": False, "exc": "error:" + type(task.exception()).__name__, "t": tick()})
     else:
         events.append({"ev": "end", "id": task.cancelling(), "caught": False, "cc": False, "exc": "", "t": tick()})
+    events.append(ext_info)  # (taken off again before validation)
     return events
 
 
@@ -423,7 +431,10 @@ def run(chk: Check) -> None:
     from ..common import pmap
 
     for (ast, ext), evs in zip(cases, pmap(_run_one, cases)):
-        rec.append({"par": {"prog": flatten(ast), "ext": ext}, "events": evs, "ast": ast, "meta": f"ext={'none' if ext >= INF else ext} program: {ast_str(ast)}"})
+        ext_first = True
+        if evs and evs[-1].get("ev") == "_ext":
+            ext_first = bool(evs.pop()["first"])
+        rec.append({"par": {"prog": flatten(ast), "ext": ext}, "events": evs, "ext_first": ext_first, "ast": ast, "meta": f"ext={'none' if ext >= INF else ext} program: {ast_str(ast)}"})
     slim = [{"par": t["par"], "events": traces.uniform(t["events"], EVD)} for t in rec]
     res = traces.validate("CancelScopeTrace", slim, cfg_text=TRACE_CFG, parallel=12, chunk=400)
     chk.traces += len(rec)
@@ -461,6 +472,8 @@ def run(chk: Check) -> None:
             "rejected_after_external_cancel": bool(ext < INF and failing is not None and failing["t"] >= ext),
             # F8 / F8b need a scope's own cancellation to compete with the external one
             "a_scope_was_cancelled": any((e["ev"] == "exit" and e["cc"]) or e["ev"] == "cancel" for e in evs),
+            # at a tie: the external request reached the task before any scope had asked for its cancellation in that iteration
+            "external_request_came_first": bool(t.get("ext_first", True)),
         }
         chk.violation(
             sig,
